@@ -138,6 +138,8 @@ specs["C07"] = {"runs": [
     run(CMD + "stats:Harness_stats_distances", QT, {}, cover=["ran"], note="concrete supplement: 4 values of --today x 11 x 11 distances (0, 1, 2, 28, 29, 59, 365, 366, 1000 days back, 1 and 30 days ahead): the (n days ago) figures, through the real Time.Sub/Duration.Hours code executed concretely"),
     run(CMD + "balance:Harness_golden_concrete", QT, {}, "fp", owned=["golden-"], cover=["golden-totals"], concrete_fmt=True, note="translator validation on the repository's golden `report totals` output"),
     run(CMD + "balance:Harness_reports_agree", T, {"D": 2, "E": 2}, "real", owned=agree_owned, cover=["totals-read"]),
+    run("cmd/hranoprovod-cli:Harness_app_period", QT, {"R": 2, "command": 0}, cover=["ran"], note="for every period: `register` under a period (global / sub-command / both) = register of the selected days"),
+    run("cmd/hranoprovod-cli:Harness_app_period", QT, {"R": 2, "command": 7}, cover=["ran"], note="for every period: `report totals` under a period = totals of the selected days (so both agree under every period)"),
     run("cmd/hranoprovod-cli:Harness_app_pipeline", QT, {'command': 1, 'posbook': 1, 'E': 1, 'shapes': 3}, "real", cover=["ran"], note="whole application on book and log text with symbolic values: `report totals` = the model's signed period totals (every relation of the property is decided against one model computed from the same symbolic values)"),
     run("cmd/hranoprovod-cli:Harness_app_pipeline", QT, {'command': 2}, "real", cover=["ran"], note='`balance -s x` grand total = period total of x (a recipe name that is also a category prefix of another)'),
     run("cmd/hranoprovod-cli:Harness_app_pipeline", QT, {'command': 5}, "real", cover=["ran"], note='`report element-total x` rows = resolved amounts (the rows of `csv database-resolved`, command 4 in C13)'),
@@ -167,6 +169,8 @@ specs["C08"] = {"runs": c08 + [
     run("cmd/hranoprovod-cli:Harness_app_bad_input", QT, {}, owned=["no-panic"], note="whole application on malformed and unreadable files"),
     run("cmd/hranoprovod-cli:Harness_main_exit_status", QT, {}, owned=["no-panic"], note="main() under every scenario"),
     run("cmd/hranoprovod-cli:Harness_app_cyclic_book", QT, {}, owned=["no-panic", "terminates", "cyclic-book-is-error", "acyclic-book-resolves-under-default-limit"], cover=["ran"], depth_is_violation=True, note="whole application: three cyclic books and an acyclic one x --maxdepth in {unset, -1, 0, 1, 2} x four commands that resolve the book: terminates within the call-depth cap, cyclic books are errors"),
+    run("cmd/hranoprovod-cli:Harness_app_odd_names", QT, {}, owned=["no-panic", "terminates"], cover=["ran"], depth_is_violation=True, max_steps=3000000, note="whole application: 9 names with stray separators, empty segments, quotes, long segments x 14 tree/register/export commands: terminates (step and call-depth budgets) without a panic"),
+    run("cmd/hranoprovod-cli:Harness_app_failing_stdout", QT, {}, owned=["no-panic"], note="16 commands on usual, empty, comment-only and other-layout logs"),
     run("cmd/hranoprovod-cli:Harness_app_single_food_patterns", QT, {}, owned=["no-panic", "malformed-pattern-is-error", "valid-pattern-runs"], cover=["ran"], note="`register -f PATTERN` with 4 well-formed and 8 malformed regular expressions (regexp.Compile executed from its real SSA)"),
     run("cmd/hranoprovod-cli:Harness_app_settings", Q, {"full": 0}, owned=["no-panic"], note="whole application under every source combination of the settings"),
  ], "assumptions": ["implicit assertions on every explored path: nil dereference, index and slice bounds, failed type assertion, integer division by zero, explicit panic; termination = every path ends within the step and call-depth budgets"],
